@@ -3,11 +3,14 @@
    the two real blockwise.BlockWise instances. *)
 From Coq Require Import ZArith NArith List Bool.
 From GoCoap Require Import Base.Cases Base.Bytes Blockwise.Model.
-From GoCoap Require Export Blockwise.Config Blockwise.Spec.
+From GoCoap Require Export Blockwise.Config Blockwise.Spec Blockwise.Timed.
 Import ListNotations.
 Open Scope Z_scope.
 
-Inductive case := Case (c : cfg) (es : list ev) (os : list obs).
+(* the script of a case may contain the passing of time and sweeps (Timed.tev); the observed
+   trace is compared with the run of the timed endpoints (Blockwise/Timed.v), which coincides
+   with the run of Blockwise/Model.v on scripts without Age / Sweep (ProofsTimed.timed_conservative) *)
+Inductive case := Case (c : cfg) (es : list tev) (os : list obs).
 
 Definition proj_blk (b : option blk) : option (Z * Z * bool) :=
   match b with Some x => Some (bszx x, bnum x, bmore x) | None => None end.
@@ -39,14 +42,15 @@ Definition obs_eqb (a b : obs) : bool :=
   && list_eqb pair_eqb (o_ret a) (o_ret b) && list_eqb Z.eqb (o_sizes a) (o_sizes b) && (o_bad a =? o_bad b).
 
 Definition model_obs (c : cfg) (es : list ev) : list obs := map proj_mob (run c (init c) es).
+Definition model_obs_t (c : cfg) (es : list tev) : list obs := map proj_mob (trun c (tinit c) es).
 
 (* does the observed trace equal the model's, event by event? *)
 Definition agrees (k : case) : bool :=
-  match k with Case c es os => list_eqb obs_eqb (model_obs c es) os end.
+  match k with Case c es os => list_eqb obs_eqb (model_obs_t c es) os end.
 
 (* the property (Spec.c04_class) on the OBSERVED trace *)
 Definition pclass (k : case) : N :=
-  match k with Case c es os => c04_class c es os end.
+  match k with Case c es os => c04_class c (untimed es) os end.
 
 Definition mismatches (cs : list case) : list N := bad_indices (fun c => negb (agrees c)) cs.
 Definition property_failures (cs : list case) : list (N * N) := classes pclass cs.
@@ -59,4 +63,4 @@ Fixpoint first_diff (i : N) (a b : list obs) : option N :=
   | _, _ => Some i
   end.
 Definition where_differs (k : case) : option N :=
-  match k with Case c es os => first_diff 0%N (model_obs c es) os end.
+  match k with Case c es os => first_diff 0%N (model_obs_t c es) os end.
